@@ -309,6 +309,8 @@ def harnesses(tier):
                                     liveness_choice=False), dev))
         out.append((be, e3.E3Config(base=e2.Config(spec=chain, requested=req3, precached=(0, 1, 2), bust_cache=True), backend=be, max_workers=2,
                                     liveness_choice=False), dev))
+    # a worker that is killed outright while the interrupt is being handled
+    out.append(('fork', e3.E3Config(base=e2.Config(spec=mk_spec(((), ()), types=('TA', 'TA')), requested=((0, False), (1, False)), died=(1,)), backend='fork', max_workers=2), dev))
     # workers that do not die promptly when terminated (a task with its own SIGTERM handler)
     out.append(('fork', e3.E3Config(base=e2.Config(spec=mk_spec(((), ()), types=('TA', 'TA')), requested=((0, False), (1, False))), backend='fork', max_workers=2,
                                     liveness_choice=False, term_slow=True), 0))
